@@ -79,6 +79,80 @@ impl LoopContext {
     }
 }
 
+/// Expr::If: condition; JumpIfFalse placeholder; consequence; peephole; Jump placeholder; patch; alternative or Null;
+/// peephole; patch  ==> the whole arm behaves like a generator (gen_post).
+pub proof fn lemma_if_gen_post(a: Compiler, s_cond: Compiler, e1: Compiler, s_cons: Compiler, r1: Compiler, e2: Compiler,
+                               s_mid: Compiler, s_alt: Compiler, s_pre: Compiler, fin: Compiler, has_alt: bool)
+    requires
+        gen_post(a, s_cond, true),
+        step_appended(s_cond, e1, 3),
+        gen_post(e1, s_cons, true),
+        step_peephole(s_cons, r1),
+        step_appended(r1, e2, 3), e2.last_instruction == Some(OpCode::Jump),
+        step_patched(e2, s_mid, s_cond.instructions@.len() as int),
+        has_alt ==> gen_post(s_mid, s_alt, true) && step_peephole(s_alt, s_pre),
+        !has_alt ==> step_appended(s_mid, s_pre, 1),
+        step_patched(s_pre, fin, r1.instructions@.len() as int),
+        sym_depth(fin.symbols) == sym_depth(a.symbols), sym_contexts(fin.symbols) == sym_contexts(a.symbols), sym_outer(fin.symbols) == sym_outer(a.symbols),
+    ensures gen_post(a, fin, true)
+{
+    let nl = a.loop_contexts@.len() as int;
+    let pjif = s_cond.instructions@.len() as int;
+    let pj = r1.instructions@.len() as int;
+    // condition, then the JumpIfFalse placeholder
+    lemma_step_appended(s_cond, e1, 3);
+    lemma_gen_post_trans(a, s_cond, e1, true, true);
+    // consequence, peephole, the Jump placeholder
+    lemma_gen_post_trans(a, e1, s_cons, true, true);
+    if s_cons.last_instruction == Some(OpCode::Pop) { lemma_gen_post_remove_last(a, s_cons, r1, true); }
+    assert(gen_post(a, r1, false));
+    lemma_step_appended(r1, e2, 3);
+    lemma_gen_post_trans(a, r1, e2, false, true);
+    // pending stops recorded so far lie inside the condition (before pjif) or inside the consequence (from pjif+3,
+    // clear of the Jump at pj)
+    if nl > 0 {
+        let b0 = breaks(a, nl - 1); let bc = breaks(s_cond, nl - 1); let bk = breaks(s_cons, nl - 1);
+        assert(breaks(e2, nl - 1) == bk && breaks(e1, nl - 1) == bc);
+        assert forall|j: int| b0.len() <= j < bk.len() implies
+            ((#[trigger] bk[j]) + 3 <= pjif || (pjif + 3 <= bk[j] && bk[j] + 3 <= pj)) by {
+            if j < bc.len() {
+                assert(bk.subrange(0, bc.len() as int)[j] == bc[j]);
+                assert(break_ok(s_cond, bc[j] as int));
+            } else {
+                assert(break_ok(s_cons, bk[j] as int));
+            }
+        }
+    }
+    assert(new_breaks_clear_of(a, e2, pjif));
+    lemma_gen_post_patch(a, e2, s_mid, pjif, s_mid.instructions@[pjif + 1], s_mid.instructions@[pjif + 2], false);
+    // alternative (or the Null that stands for it), peephole
+    if has_alt {
+        lemma_gen_post_trans(a, s_mid, s_alt, false, true);
+        if s_alt.last_instruction == Some(OpCode::Pop) { lemma_gen_post_remove_last(a, s_alt, s_pre, false); }
+    } else {
+        lemma_step_appended(s_mid, s_pre, 1);
+        lemma_gen_post_trans(a, s_mid, s_pre, false, true);
+    }
+    assert(gen_post(a, s_pre, false));
+    // the final patch of the Jump at pj: every pending stop is before it or after it
+    if nl > 0 {
+        let b0 = breaks(a, nl - 1); let bk = breaks(s_cons, nl - 1); let bp = breaks(s_pre, nl - 1);
+        assert(breaks(s_mid, nl - 1) == bk);
+        assert forall|j: int| b0.len() <= j < bp.len() implies (#[trigger] bp[j]) + 3 <= pj || pj + 3 <= bp[j] by {
+            if j < bk.len() {
+                if has_alt { assert(breaks(s_alt, nl - 1).subrange(0, bk.len() as int)[j] == bk[j]); }
+                assert(bp[j] == bk[j]);
+            } else {
+                assert(has_alt);
+                assert(breaks(s_alt, nl - 1)[j] >= s_mid.instructions@.len());
+            }
+        }
+    }
+    assert(new_breaks_clear_of(a, s_pre, pj));
+    lemma_gen_post_patch(a, s_pre, fin, pj, fin.instructions@[pj + 1], fin.instructions@[pj + 2], false);
+    lemma_gen_post_upgrade(a, fin);
+}
+
 impl Compiler {
     fn last_instruction_is(&self, op: OpCode) -> (b: bool)
         ensures b == (self.last_instruction == Some(op))
